@@ -581,7 +581,7 @@ class SeqTheory(BaseTheory):
     def global_name(self, ex, name):
         if name in ("dict_setitem", "dict_getitem", "dict_delitem", "dict_contains", "dict_clear",
                     "iter", "enumerate", "zip", "list", "len", "type", "isinstance", "hasattr", "str",
-                    "abc", "_insert_arg_helper", "next", "tuple", "super", "max"):
+                    "abc", "_insert_arg_helper", "next", "tuple", "super", "max", "any", "all"):
             return FuncV(name)
         if self.program and name in self.program.classes:
             return FuncV(name)
@@ -1031,12 +1031,18 @@ class SeqTheory(BaseTheory):
                 s = th.it_seq(ex, it)
                 th.split_hint(ex, s, i)
                 return th.elem(it.kind, s[i])
+
+            def seq(s_):
+                return th.it_seq(ex, it)
         return S()
 
     def for_loop(self, ex, node, itv, spec, ordn):
         src = self.source(ex, itv)
         lname = f"loop#{ordn}"
         i0 = src.pos()
+        # the sequence a plain loop runs over: a specification shared by all loops of a function ("*") reads it to decide
+        # which part of the input this loop consumes (robust against merged / reordered loops)
+        ex.st.ghost["loop.seq"] = src.seq() if hasattr(src, "seq") else None
         for nm, f in spec.inv(ex.env, ex.st, i0):
             ex.oblige(f"{ex.fv.qual}:{lname}:inv-established:{nm}", f)
         ex.havoc_loop(node, spec)
@@ -1082,6 +1088,8 @@ class SeqTheory(BaseTheory):
             raise Untranslatable("nested comprehension")
         g = node.generators[0]
         itv = ex.expr(g.iter)
+        if isinstance(itv, EnumV):
+            return self.enum_comprehension(ex, node, g, itv)
         # the source sequence consumed by the comprehension
         if isinstance(itv, IterV):
             s_all = self.it_seq(ex, itv)
@@ -1112,7 +1120,92 @@ class SeqTheory(BaseTheory):
             ex.env = saved
         if len(ex.st.pc) != pc_len:
             raise Untranslatable("comprehension body forks")
+        if isinstance(node, ast.GeneratorExp) and self._as_bool(elt) is not None:
+            # a generator of truth values: only any()/all() consume it
+            return ObjV("genbool", info={"kind": kind, "seq": seq, "x": x, "t": z3.And(cond, self._as_bool(elt)),
+                                         "cond": cond, "elt": self._as_bool(elt)})
         return self.homomorphism(ex, kind, seq, x, cond, elt)
+
+    @staticmethod
+    def _as_bool(v):
+        if isinstance(v, Conc) and isinstance(v.v, bool):
+            return z3.BoolVal(v.v)
+        if isinstance(v, Z) and v.kind == "bool":
+            return v.t
+        return None
+
+    def enum_comprehension(self, ex, node, g, itv):
+        """[<idx> for <idx>, <k> in enumerate(<keys of L>) if <k> == key]  ->  pos(L, key, 0)   (only a fresh enumerate)"""
+        it = itv.inner
+        pos = ex.st.th[f"{it.id}.pos"]
+        if not (z3.is_int_value(pos) and pos.as_long() == 0 and z3.is_int_value(z3.simplify(itv.offset + 0))
+                and z3.simplify(itv.offset + 0).as_long() == 0):
+            raise Untranslatable("comprehension over a partly consumed enumerate")
+        seq = self.it_seq(ex, it)
+        ex.st.th[f"{it.id}.pos"] = z3.Length(seq)
+        ek = ELEM_KIND[it.kind]
+        x = fresh("x", SORT_OF_KIND[ek])
+        j = fresh("j", I)
+        saved = dict(ex.env)
+        pc_len = len(ex.st.pc)
+        try:
+            ex.assign(g.target, TupV([Z("int", j), Z(ek, x)]))
+            cond = z3.BoolVal(True)
+            for c in g.ifs:
+                t = ex.truth(ex.expr(c))
+                cond = z3.And(cond, t if not isinstance(t, bool) else z3.BoolVal(t))
+            elt = ex.expr(node.elt)
+        finally:
+            ex.env = saved
+        if len(ex.st.pc) != pc_len:
+            raise Untranslatable("comprehension body forks")
+        if it.kind == "seqK" and isinstance(elt, Z) and elt.kind == "int" and not isinstance(node, ast.GeneratorExp):
+            # the list L whose keys are enumerated: syntactically, or a list field the path condition equates it with
+            Ls = [seq.arg(0)] if z3.is_app(seq) and seq.decl().eq(keysf(z3.Empty(SeqP)).decl()) else [
+                t for nm, t in ex.st.th.items() if nm.endswith(".items") and z3.is_expr(t) and t.sort().eq(SeqP)
+                and self.qf_valid(ex, seq == keysf(t))]
+            for L in Ls[:1]:
+                for k in [v for v in ex.env.values() if isinstance(v, Z) and v.kind == "K"]:
+                    if self.qf_valid(ex, z3.And(cond == (x == k.t), elt.t == j)):
+                        return Z("seqI", posf(L, k.t, z3.IntVal(0)))
+        raise Untranslatable("comprehension over enumerate(): no catalogue entry")
+
+    def _gen_membership(self, ex, gb, t):
+        """the truth of  any(<t> for x in seq)  as a membership term, or None"""
+        kind, seq, x = gb["kind"], gb["seq"], gb["x"]
+        env = [v for v in ex.env.values() if isinstance(v, Z)]
+        cands = []
+        for v in env:
+            if kind == "seqP" and v.kind == "V":
+                cands.append((snd(x) == v.t, memV(valsf(seq), v.t)))
+            if kind == "seqP" and v.kind == "K":
+                cands.append((fst(x) == v.t, memK(keysf(seq), v.t)))
+            if kind == "seqP" and v.kind == "pair":
+                cands.append((x == v.t, memP(seq, v.t)))
+            if kind == "seqV" and v.kind == "V":
+                cands.append((x == v.t, memV(seq, v.t)))
+            if kind == "seqK" and v.kind == "K":
+                cands.append((x == v.t, memK(seq, v.t)))
+        for shape, term in cands:
+            if self.qf_valid(ex, t == shape):
+                return term
+        return None
+
+    def b_any(self, ex, args, kwargs):
+        if len(args) == 1 and isinstance(args[0], ObjV) and args[0].role == "genbool":
+            m = self._gen_membership(ex, args[0].info, args[0].info["t"])
+            if m is not None:
+                return Z("bool", m)
+        raise Untranslatable("any(...): no catalogue entry")
+
+    def b_all(self, ex, args, kwargs):
+        if len(args) == 1 and isinstance(args[0], ObjV) and args[0].role == "genbool":
+            gb = args[0].info
+            # all(e for x in s if c)  ==  not any(c and not e for x in s)
+            m = self._gen_membership(ex, gb, z3.And(gb["cond"], z3.Not(gb["elt"])))
+            if m is not None:
+                return Z("bool", z3.Not(m))
+        raise Untranslatable("all(...): no catalogue entry")
 
     def homomorphism(self, ex, kind, seq, x, cond, elt):
         pr = ex.fv.prover
